@@ -91,6 +91,22 @@ CHECKS = {
             dict(name="random", test="TestC11Random", checks=(4000, 200000), shards=(4, 14), timeout=(240, 3000)),
         ]),
 
+    "C12": dict(
+        pkg="p_client", level="exploration",
+        technique="rapid-generated request sets and acknowledgement schedules against a scripted fake server, with the adverse interleaving (ack processed before the request is registered) forced through yield hooks; broker role: id-distinctness over generated publisher sets",
+        level_text=("Client role: 1-8 requests (Publish QoS 0/1/2, Subscribe, Unsubscribe, at most one Ping) are issued through the library Client to a fake server that acknowledges in a generated order, "
+                    "duplicates PUBRECs, and for a generated subset forces the adverse interleaving: the sending goroutine is parked at the yield between writing and returning, the server's ack is sent and the "
+                    "client's packet-handled event awaited, then the goroutine is released. Every PUBREC must be answered by a PUBREL with its id; each completion callback must fire exactly once, not before "
+                    "its terminal ack was sent, and all must have fired after a final flush round trip; QoS 0 completes inside Publish. Broker role: 2-3 raw publishers with overlapping ids, in-process "
+                    "publishes and a retained message towards a subscriber that withholds all acks: the ids of the unacknowledged PUBLISH packets must be non-zero and pairwise distinct. Sampling."),
+        level_note=("Trusted: harness/ref/codec, the yield hooks *.after-write and the packet-handled event in /repo (build tag verif), the fake server. At most one PINGREQ outstanding (single unnumbered ping slot)."),
+        rule=("rapid-generated cases; non-trivial (client role) = a forced ack-before-registration interleaving or acks in another order than the requests; (broker role) = >= 2 QoS>0 publishes in flight to the subscriber; distinct = FNV-64 of the case JSON"),
+        assumptions=["one issuing goroutine at a time in the client-role unit (forced requests run in their own goroutine)", "acks per identifier follow protocol stage order"],
+        units=[
+            dict(name="client-role", test="TestC12Client", checks=(1500, 12000), shards=(4, 14), timeout=(240, 3000)),
+            dict(name="broker-role", pkg="p_broker", test="TestC12Broker", checks=(1500, 12000), shards=(4, 14), timeout=(240, 3000)),
+        ]),
+
     "C13": dict(
         pkg="p_ackq", level="exploration",
         technique="model-based property testing: small-scope exhaustive enumeration + rapid random histories against a list model",
@@ -206,6 +222,18 @@ CHECKS = {
         rule=("rapid-generated workloads; non-trivial = at least three of {teardown during fan-out, retained update concurrent with subscriptions, in-process subscribe, concurrent Client.Connect} occurred; distinct = FNV-64 of the workload JSON"),
         assumptions=["one live connection per client identifier", "the library's process-global provider registries are touched by the harness only under its own mutex"],
         units=[dict(name="race", test="TestC18Race", checks=(200, 4000), shards=(4, 14), timeout=(300, 3000), race_log=True, shrinktime="5s")]),
+
+    "C19": dict(
+        pkg="p_broker", level="fault_enumeration",
+        technique="rapid-generated keep-alive activity patterns (gaps as fractions of K, packet kinds, silence) run concurrently against one broker with measured own-write gaps and wide-margin timing",
+        level_text=("Clients negotiate K = 1 or 2 s with a will and follow a generated pattern of packets (PINGREQ, PUBLISH QoS 0/1, SUBSCRIBE) separated by 0.2-0.85 K, then either stay active or go silent. "
+                    "Active direction: as long as every measured gap between the completions of the client's own writes is below K the connection must stay open and every PINGREQ must be answered (a scenario "
+                    "whose own write was late is inconclusive). Silent direction: the connection must not be closed before K has passed, must be closed by the broker before 1.5 K + 8 s, and the witness must "
+                    "receive the will exactly once (never for an active client that ends with DISCONNECT). Patterns are enumerated by class (silent from start / after traffic / active), timings are sampled."),
+        level_note=("Trusted: time.Now on the harness side, net.Pipe write completion = the broker has read the bytes. Only K in {1,2} s; the cap is far from the library's 1.2 K threshold so that load cannot cause a false alarm."),
+        rule=("8 scenarios per generated batch, each scenario counted as a case; non-trivial = silent after >= 2 timely packets, or active with a gap >= 0.7 K; distinct = FNV-64 of the scenario JSON"),
+        assumptions=["whole-second keep-alive values only", "a late own write (gap >= 0.95 K) makes the scenario inconclusive, never a violation"],
+        units=[dict(name="timed", test="TestC19", checks=(8, 160), shards=(4, 8), timeout=(300, 3000))]),
 
     "C14": dict(
         pkg="p_ring", level="exploration",
